@@ -132,9 +132,16 @@ def gauss_window_integral(R, tau0, W, t_lo, t_hi):
     return R * 0.5 * (math.erf(math.log(t_hi / tau0) / W) - math.erf(math.log(t_lo / tau0) / W))
 
 
+NEAR_IDEAL_N = [0.99, 0.992, 0.995, 0.999, 0.9995]
+
+
+def is_gauss_branch(n):
+    """The library documents: n within 1e-2 of 1 (numpy.isclose, i.e. incl. its default rtol 1e-5) -> Gaussian of width W."""
+    return abs(abs(n) - 1.0) <= 1e-2 + 1e-5
+
+
 def element_window_integral(R, tau0, n, W, t_lo, t_hi):
-    # the library documents: |n| within 1e-2 of 1 -> Gaussian of width W approximating the (RC) delta peak
-    if abs(abs(n) - 1.0) <= 1e-2:
+    if is_gauss_branch(n):
         return gauss_window_integral(R, tau0, W, t_lo, t_hi)
     return rq_window_integral(R, tau0, n, t_lo, t_hi)
 
@@ -272,7 +279,19 @@ def gen_cases(tier, seed):
         for _b in range(4):
             lad = gen_ladder(rng, tier)
             lad["W"] = float(rng.uniform(0.1, 0.3))
-            lad["npd"] = int(rng.choice([50, 100, 200]))
+            # nearly ideal (RQ): exponents in (0.97, 0.9995], incl. the library's Gaussian branch |n - 1| <= 1e-2
+            for el in lad["els"]:
+                if el[2] != 1.0 and rng.random() < 0.45:
+                    if rng.random() < 0.5:
+                        el[2] = float(rng.choice(NEAR_IDEAL_N))
+                    else:
+                        el[2] = float(rng.uniform(0.97, 0.9995))
+                        if 0.9899 < el[2] < 0.99:
+                            el[2] = 0.99  # keep clear of the 1e-5 wide rtol fringe of numpy.isclose(n, 1, atol=1e-2)
+            # the trapezoid on the RESULT grid must resolve the sharpest analytic (RQ) hump (half width (1-n)pi/n in ln tau)
+            widths = [(1.0 - el[2]) * math.pi / el[2] for el in lad["els"] if not is_gauss_branch(el[2])]
+            ok = [c for c in (50, 100, 200) if not widths or math.log(10.0) / c <= min(widths) / 2.0]
+            lad["npd"] = int(rng.choice(ok))
             batch.append(lad)
         cases.append({"kind": "mrq", "lads": batch})
         i += 1
@@ -694,6 +713,9 @@ def run_mrq_one(lad, acc):
     def kind(n):
         return "rc" if n == 1.0 else "rq"
 
+    def pclass(n):  # peak-position classes: Gaussian branch (RC and near-ideal RQ), sharp analytic hump, broad hump
+        return "gauss" if is_gauss_branch(n) else ("sharp-rq" if n >= 0.9 else "broad-rq")
+
     # whole circuit
     r, e = _mrq(f, Z, R0, els, W, npd)
     acc.stat(cell + "/circuit-runs")
@@ -736,8 +758,11 @@ def run_mrq_one(lad, acc):
             acc.obs(cell + "/peak_dev_decades[rq,no-maximum-in-true-drt,info]", d)
             continue
         acc.stat(cell + "/peak-checked")
-        acc.obs(cell + f"/peak_dev_steps[{kind(n)}]", d / rstep)
-        acc.obs(cell + f"/peak_dev_decades[{kind(n)}]", d)
+        acc.stat(cell + f"/peak-checked[{pclass(n)}]")
+        if n != 1.0 and is_gauss_branch(n):
+            acc.stat(cell + "/peak-checked[near-ideal-rq]")
+        acc.obs(cell + f"/peak_dev_steps[{pclass(n)}]", d / rstep)
+        acc.obs(cell + f"/peak_dev_decades[{pclass(n)}]", d)
         # RC: Gaussian centred on tau_k -> the nearest grid point; RQ: symmetric hump on the sloping tails of its neighbours
         if not (d / rstep <= MRQ_PEAK_STEPS or (n != 1.0 and d <= MRQ_PEAK_DEC_RQ)):
             acc.bad(f"C13/{cell}/peak-position", f"element R={R:.6g} tau={t0:.6g} n={n:.3f}: nearest peak {d:.4f} decades = {d / rstep:.2f} result-grid steps away; "
